@@ -15,6 +15,8 @@ use super::{BASE_DATAGRAM_SIZE, Controller, ControllerFactory};
 
 mod bw_estimation;
 mod min_max;
+#[cfg(feature = "__verif")]
+mod verif_comp;
 
 /// Experimental! Use at your own risk.
 ///
